@@ -259,6 +259,31 @@ func extract(repo, out string) error {
 		ok = false
 	}
 
+	// ---- diff.getRange: no branch other than the ones in the model (Index.getRange) ----
+	// node found: hash+count, elements only when requested; no node: elements + their hash.
+	getRangeOk := false
+	if gd, err := goast.Parse(filepath.Join(repo, "app/ldiff/diff.go")); err == nil {
+		if fd := gd.Fn("diff", "getRange"); fd != nil && len(fd.Body.List) == 8 {
+			b := fd.Body.List
+			wantText := []string{
+				"rng := d.ranges.getRange(r.From, r.To)",
+				"if rng != nil { rr.Hash = rng.hash rr.Count = rng.elements if !r.Elements { return } }",
+				"el := d.sl.Find(&element{hash: r.From})",
+				"rr.Elements = make([]Element, 0, d.divideFactor)",
+				"for el != nil && el.Key().(*element).hash <= r.To { elem := el.Key().(*element).Element el = el.Next() rr.Elements = append(rr.Elements, elem) }",
+				"rr.Count = len(rr.Elements)",
+				"if rng == nil { rr.Hash, _ = d.ranges.calcElementsHash(r.From, r.To) }",
+				"return",
+			}
+			getRangeOk = true
+			for i, t := range wantText {
+				if gd.Str(b[i]) != t {
+					getRangeOk = false
+				}
+			}
+		}
+	}
+
 	var sb strings.Builder
 	sb.WriteString("-- GENERATED by `verifharness extract` from /repo/app/ldiff/hashrange.go — do not edit\n")
 	sb.WriteString("namespace AnySync.Generated.LdiffShape\n")
@@ -278,6 +303,7 @@ func extract(repo, out string) error {
 	sb.WriteString("/-- getBottomRange: `tuple.to += align` for the last bucket -/\ndef gbLastTo (t al : Nat) : Nat := " + defs["gbLastTo"] + "\n")
 	sb.WriteString("/-- canDivide: left and right side of `>=` (fix-width); shapeOk also pins the three guards using it -/\ndef canDivideL (lo hi : Nat) : Nat := " + defs["cdL"] + "\n")
 	sb.WriteString("def canDivideR (df : Nat) : Nat := " + defs["cdR"] + "\n")
+	sb.WriteString("/-- diff.getRange has exactly the branches of the model's `Index.getRange` (no size- or limit-dependent branch) -/\ndef getRangeShapeOk : Bool := " + goast.LeanBool(getRangeOk) + "\n")
 	sb.WriteString("end AnySync.Generated.LdiffShape\n")
 	return os.WriteFile(filepath.Join(out, "LdiffShape.lean"), []byte(sb.String()), 0o644)
 }
